@@ -1,4 +1,5 @@
 import NpsVerif.Gen.BridgeTac
+set_option linter.unusedVariables false
 namespace Gen.Bridge
 /-- reachable domain of K1: only called from the negative-step branch of `col_slice` -/
 theorem calc_lengths_bridge (len : Int) (a b : Option Int) (s : Int) (hl : 0 ≤ len) (hs : s < 0) :
